@@ -287,6 +287,17 @@ func (e *c06Env) runCase(r *rand.Rand, kind string, n int, via Via, faults map[s
 	defer wd.Stop()
 	env.FreshKeys(n)
 	runtime.GOMAXPROCS(procsMix[(n+len(faults)+int(via))%len(procsMix)])
+	// Half of the cases start from keys that have signed before, so that a failure which rewrites a record shows.
+	if (kind == "att" || kind == "atts" || kind == "prop") && r.Intn(2) == 0 {
+		if kind == "prop" {
+			ruleProp(env.Stack.StdRules, env.Keys[0].Pub, 3)
+		} else {
+			for i := 0; i < n; i++ {
+				ruleAtt(env.Stack.StdRules, env.Keys[i].Pub, 2, 3)
+			}
+		}
+		e.run.Count("cases_with_prior_history", 1)
+	}
 	addrs := make([]Addr, n)
 	for i := range addrs {
 		addrs[i] = Addr(r.Intn(2))
@@ -324,9 +335,35 @@ func (e *c06Env) runCase(r *rand.Rand, kind string, n int, via Via, faults map[s
 			dataLen[p] = 31
 		}
 	}
+	// The records of every key of the request as stored before it runs.
+	type recs struct {
+		st  rig.RawState
+		err error
+	}
+	before := make([]recs, n)
+	for i := 0; i < n && i < len(env.Keys); i++ {
+		st, err := env.Stack.ReadState(env.Keys[i].Pub)
+		before[i] = recs{st, err}
+	}
 	e.ctl.set(active, names)
 	var res []core.Result
 	var sigs [][]byte
+	// A panic in the goroutine that serves the request is what the server's recovery interceptor answers with an
+	// error: nothing is signed.  (A panic elsewhere still ends this process.)
+	panicked := false
+	call := func(f func()) {
+		defer func() {
+			if p := recover(); p != nil {
+				panicked = true
+				res, sigs = make([]core.Result, n), make([][]byte, n)
+				for i := range res {
+					res[i] = core.ResultFailed
+				}
+				e.run.Count("panics_in_the_serving_goroutine", 1)
+			}
+		}()
+		f()
+	}
 	// What a signature at each position has to verify for (well-formed entries only).
 	type want struct {
 		pub  []byte
@@ -352,12 +389,14 @@ func (e *c06Env) runCase(r *rand.Rand, kind string, n int, via Via, faults map[s
 				wants[i] = want{cs[i].Key.Pub, cs[i].SigningRoot(), true}
 			}
 		}
-		if kind == "generic" {
-			v, s := env.SignGen(via, cs[0])
-			res, sigs = []core.Result{v}, [][]byte{s}
-		} else {
-			res, sigs = env.SignGens(via, cs)
-		}
+		call(func() {
+			if kind == "generic" {
+				v, s := env.SignGen(via, cs[0])
+				res, sigs = []core.Result{v}, [][]byte{s}
+			} else {
+				res, sigs = env.SignGens(via, cs)
+			}
+		})
 	case "att", "atts":
 		cs := make([]*AttCase, n)
 		for i := range cs {
@@ -372,11 +411,28 @@ func (e *c06Env) runCase(r *rand.Rand, kind string, n int, via Via, faults map[s
 				wants[i] = want{cs[i].Key.Pub, cs[i].SigningRoot(), true}
 			}
 		}
-		if kind == "att" {
-			v, s := env.SignAtt(via, cs[0])
-			res, sigs = []core.Result{v}, [][]byte{s}
-		} else {
-			res, sigs = env.SignAtts(via, cs)
+		// In larger batches the first entry is sometimes one the rules must refuse (target below source): failures of
+		// the batch as a whole must reach the entries after it too.
+		refusedFirst := kind == "atts" && n >= 3 && r.Intn(3) == 0
+		for _, p := range faults {
+			if p == 0 {
+				refusedFirst = false // position 0 carries a fault of its own in this case
+			}
+		}
+		if refusedFirst {
+			cs[0].Data.Source.Epoch, cs[0].Data.Target.Epoch = cs[0].Data.Target.Epoch+1, cs[0].Data.Source.Epoch
+			wants[0].ok = false
+		}
+		call(func() {
+			if kind == "att" {
+				v, s := env.SignAtt(via, cs[0])
+				res, sigs = []core.Result{v}, [][]byte{s}
+			} else {
+				res, sigs = env.SignAtts(via, cs)
+			}
+		})
+		if refusedFirst && len(res) > 0 && (res[0] == core.ResultSucceeded || (len(sigs) > 0 && len(sigs[0]) > 0)) {
+			e.run.Violate("atts position 0 is an attestation with target below source and came back signed", nil)
 		}
 	case "prop":
 		c := wfProp(r, env, 0)
@@ -387,9 +443,12 @@ func (e *c06Env) runCase(r *rand.Rand, kind string, n int, via Via, faults map[s
 		if len(c.Data.Domain) == 32 {
 			wants[0] = want{c.Key.Pub, c.SigningRoot(), true}
 		}
-		v, s := env.SignProp(via, c)
-		res, sigs = []core.Result{v}, [][]byte{s}
+		call(func() {
+			v, s := env.SignProp(via, c)
+			res, sigs = []core.Result{v}, [][]byte{s}
+		})
 	}
+	_ = panicked
 	// Which faults actually fired?
 	firedPos := map[int][]string{}
 	for f, p := range faults {
@@ -429,6 +488,45 @@ func (e *c06Env) runCase(r *rand.Rand, kind string, n int, via Via, faults map[s
 		has := i < len(sigs) && len(sigs[i]) > 0
 		if has != (res[i] == core.ResultSucceeded) {
 			e.run.Violate(fmt.Sprintf("%s position %d: state %s with signature length %d (a signature iff SUCCEEDED)", kind, i, res[i], rec.SigLen[i]), rec)
+		}
+	}
+	// A failed write of the batch fails every entry of the batch.
+	for _, fs := range firedPos {
+		for _, f := range fs {
+			if f == "store-batchstore-error" && kind == "atts" {
+				for i := range res {
+					if res[i] == core.ResultSucceeded || (i < len(sigs) && len(sigs[i]) > 0) {
+						e.run.Violate(fmt.Sprintf("atts position %d of %d signed although the batch's state write failed", i, n), rec)
+					}
+				}
+			}
+		}
+	}
+	// An entry that was not signed must not take anything away from its key's records: what was recorded before is
+	// still recorded (a failure may leave a record advanced - approved and stored, then failed later - never lowered
+	// or replaced by something unreadable).
+	for i := 0; i < n && i < len(env.Keys) && i < len(res); i++ {
+		if res[i] == core.ResultSucceeded || before[i].err != nil {
+			continue
+		}
+		b := before[i].st
+		a, err := env.Stack.ReadState(env.Keys[i].Pub)
+		planted := false
+		for f, p := range faults {
+			if p == i && strings.HasPrefix(f, "record-") {
+				planted = true // this case itself planted an unreadable record for the key
+			}
+		}
+		if planted {
+			continue
+		}
+		switch {
+		case err != nil:
+			e.run.Violate(fmt.Sprintf("%s position %d of %d was not signed (%s) and its key's records can no longer be read: %v (faults %v)", kind, i, n, res[i], err, faults), rec)
+		case (b.HasAtt && (!a.HasAtt || a.Src < b.Src || a.Tgt < b.Tgt)) || (b.HasProp && (!a.HasProp || a.Slot < b.Slot)):
+			e.run.Violate(fmt.Sprintf("%s position %d of %d was not signed (%s), yet its key's stored records went from %+v to %+v (faults %v)", kind, i, n, res[i], b, a, faults), rec)
+		default:
+			e.run.Count("unsigned_entries_with_records_intact", 1)
 		}
 	}
 	// A fault at one position must not spoil what the other positions get: every signature that does come back is
